@@ -27,6 +27,8 @@ def qty(lo=-3, hi=4):
 
 
 def num(x):
+    if x == 0:
+        return rng.choice(["0.0", "0.", "0.00"])     # the grammar has no integer zero: a zero quantity is written as a decimal
     s = repr(float(x))
     if "e" in s:
         s = "%.12f" % x
@@ -79,6 +81,11 @@ def direct_ratio(kind, comps, qs, f, text, check_density=True):
     """component masses (volumes) in the ratio of the quantities; density = mass / volume"""
     parts = [formula(c) for c in comps]
     keysets = [set(atom_key(a) for a in p.atoms) for p in parts]
+    live = [p for q, p in zip(qs, parts) if q > 0]
+    if check_density and len(live) >= 2 and any(p.density is None for p in live) and f.density is not None:
+        # total mass / total volume is not known when the volume of a part is not
+        fails.append(dict(signature="C11:density-although-a-part-has-none", what="%s: density %r although %s has no density"
+                          % (text, f.density, next(str(p) for p in live if p.density is None)), input=text))
     shared = any(keysets[i] & keysets[j] for i in range(len(parts)) for j in range(i + 1, len(parts)))
     if shared:
         # components with atoms in common (the same compound at two densities, ...): the stated quantities still fix the
@@ -200,6 +207,9 @@ while len(cases) < ncase:
                 stats["tiny_remainder_skipped"] = stats.get("tiny_remainder_skipped", 0) + 1
             else:
                 stats["tiny_remainder"] = stats.get("tiny_remainder", 0) + 1
+        if rng.random() < 0.1:
+            ps[rng.randrange(len(ps))] = 0.0       # a part with quantity zero written in the string: it vanishes
+            stats["zero_in_string"] = stats.get("zero_in_string", 0) + 1
         word = rng.choice(["vol%", "%vol", "volume%", "v%", "%v", "vol% "] if vol else ["wt%", "%wt", "weight%", "mass%", "w%", "m%", "%mass", "%w"])
         sp = rng.choice([" ", " ", ""])
         s = "%s%s%s %s" % (num(ps[0]), sp, word, comps[0])
@@ -228,6 +238,9 @@ while len(cases) < ncase:
             nod = c in NODENS
             u = rng.choice(MASS_U) if (nod or rng.random() < 0.5) else rng.choice(VOL_U)
             q = qty(-2, 3)
+            if n >= 2 and rng.random() < 0.06:
+                q = 0.0
+                stats["zero_in_string"] = stats.get("zero_in_string", 0) + 1
             stats["units"][u] = stats["units"].get(u, 0) + 1
             s += (" // " if i else "") + "%s%s%s %s" % (num(q), rng.choice(["", " "]), u, c)
             units.append(u); qs.append(q)
